@@ -2,7 +2,8 @@
    bool, option, unit, prod, list, sumbool, sumor map to OCaml's; Z, positive,
    nat stay the extracted inductives.  No Extract Constant. *)
 From Coq Require Import Extraction ExtrOcamlBasic.
-From H263V Require Import base.Prelude model.Deblock.
+From H263V Require Import base.Prelude model.Deblock model.Yuv.
 Separate Extraction
   Deblock.deblock Deblock.process Deblock.process_lane Deblock.annexJ Deblock.quant_to_strength
-  Deblock.table_J2 Deblock.annexJ_flat Deblock.updown_ramp.
+  Deblock.table_J2 Deblock.annexJ_flat Deblock.updown_ramp
+  Yuv.px Yuv.spec_px Yuv.yuv420_to_rgba Yuv.rgba_spec_flat.
